@@ -158,6 +158,25 @@ for it in range(N):
                     if not np.array_equal(col, pr, equal_nan=True): fail("strategy-column-carries-child-index", node=m.full_name, child=sc)
                     evals += 1
     if it < 2: samples.append(dict(spec=repr(spec)[:200], form=form, final=float(tl.strategy.value)))
+# ---- operations on a child before its first use: a string-declared child behaves like one constructed up front
+for op in ("close", "rebalance-to-zero", "allocate", "transact"):
+    outcome = {}
+    d_ = mkdata(6)[["a", "b"]]
+    for eager in (False, True):
+        kids = [Security("a"), Security("b")] if eager else ["a", "b"]
+        s_ = Strategy("s", [], children=kids)
+        s_.setup(d_); s_.adjust(10000.0); s_.update(d_.index[0])
+        try:
+            if op == "close": s_.close("a")
+            elif op == "rebalance-to-zero": s_.rebalance(0.0, "a")
+            elif op == "allocate": s_.allocate(1000.0, "a")
+            else: s_.transact(3.0, "a")
+            s_.update(d_.index[0])
+            outcome[eager] = ("ok", round(float(s_.value), 6), round(float(s_["a"].position), 6) if "a" in s_.children else 0.0)
+        except Exception as e:
+            outcome[eager] = ("raised", type(e).__name__)
+    evals += 1
+    if outcome[False] != outcome[True]: fail("first-use-of-a-declared-child-behaves-like-an-eager-child", operation=op, lazy=repr(outcome[False]), eager=repr(outcome[True]))
 # ---- node objects handed to several strategies are copied, whatever their flags: every tree owns its nodes
 for lazy in (False, True):
     shared = [Security("a", lazy_add=lazy), Security("b", lazy_add=lazy)]
